@@ -5,8 +5,8 @@ Domain : label files written to .work/ from generated documents (default dialect
          and token-damaged variants (C05 faults); pvl_translate with each of the five
          output formats; pvl_validate with 1 and with 2-5 files per invocation.
 Oracle : pvl_translate.main(["-of", F, in, out]) in-process: the bytes of *out* equal
-         pvl.dumps(pvl.load(in), encoder=<fresh encoder of F's class>) and main raises
-         iff that library call raises (same exception class); for JSON the output
+         pvl.dumps(pvl.load(in), encoder=<fresh encoder of F's class>) and main fails
+         (raises, or exits non-zero) iff that library call raises; for JSON the output
          parses (object_pairs_hook=list) to the nested pairs of the loaded label and
          main raises iff json.dumps of the loaded module raises.
          pvl_validate.main(files) with stdout captured: the report (single-file and
@@ -88,7 +88,8 @@ def check_translate(text, fmt):
         gc.collect()          # main() leaves closing its output file to the GC
         cli = ("ok", open(outp, "rb").read())
     except SystemExit as e:
-        return ("C20/translate/SystemExit", f"main exited with {e.code}")
+        cli = ("ok", open(outp, "rb").read() if os.path.exists(outp) else b"") \
+            if e.code in (0, None) else ("raised", f"SystemExit({e.code})")
     except Exception as e:
         cli = ("raised", type(e).__name__)
     # the library call it fronts
@@ -101,7 +102,7 @@ def check_translate(text, fmt):
     except Exception as e:
         lib = ("raised", type(e).__name__)
         m = None
-    if cli[0] != lib[0] or (cli[0] == "raised" and cli[1] != lib[1]):
+    if cli[0] != lib[0]:
         return (f"C20/translate/{fmt}/outcome-differs",
                 f"pvl_translate -of {fmt}: {cli[:2]!r:.120}; library call: "
                 f"{lib[:2]!r:.120}; text={text[:300]!r}")
